@@ -90,3 +90,47 @@ Theorem C04_account_nonvacuous :
   AccountProofs.Inv (Account.run Account.init AccountProofs.ex_ops) /\ Account.space (Account.run Account.init (firstn 17 AccountProofs.ex_ops)) = 64 /\
   Account.layout_end (Account.run Account.init (firstn 17 AccountProofs.ex_ops)) = 64.
 Proof. exact AccountProofs.ex_history_inv. Qed.
+
+(* ---- the same with Rock Ridge: Model/AccountRR.v ------------------------------------------------
+   The state machine of an ISO9660 + Rock Ridge image (versions 1.09 / 1.10 / 1.12): directory records whose length
+   and continuation-area need are Model/RRPlace.v [place], the continuation blocks are Model/CeAlloc.v, edited by
+   add_fp / add_directory / add_symlink / rm_file / rm_directory with the refusals the library has (incl. "entries
+   exceed one continuation block").  For EVERY history from a fresh image: *)
+From PV.Model Require AccountRR RREntries.
+From PV.Proofs Require AccountRRLemmas AccountRRProofs AccountRRInverse.
+
+Theorem C04_rr_declared_size_is_exact : forall v ops,
+  AccountRR.r_space (AccountRR.rr_run (AccountRR.rr_init v) ops) = AccountRR.rr_layout_end (AccountRR.rr_run (AccountRR.rr_init v) ops).
+Proof. exact AccountRRProofs.arr_space_exact. Qed.
+
+Theorem C04_rr_objects_disjoint_and_inside : forall v ops, let s := AccountRR.rr_run (AccountRR.rr_init v) ops in
+  ForallOrdPairs disjoint (AccountRR.rr_layout s) /\
+  Forall (fun iv => 0 <= fst iv /\ fst iv + snd iv <= AccountRR.r_space s) (AccountRR.rr_layout s).
+Proof. exact AccountRRProofs.arr_objects_disjoint. Qed.
+
+(* continuation entries: every record's area lies in exactly one tracked block, inside 2048 bytes; the areas of one block are
+   pairwise disjoint; every entry of every tracked block is owned by exactly one live record (nothing leaks); no tracked
+   block is empty *)
+Theorem C04_rr_continuation_entries_sound : forall v ops, AccountRRProofs.ce_sound (AccountRR.rr_run (AccountRR.rr_init v) ops).
+Proof. exact AccountRRProofs.arr_ce_sound. Qed.
+
+Theorem C04_rr_every_block_gets_one_extent : forall v ops, let s := AccountRR.rr_run (AccountRR.rr_init v) ops in
+  AccountRRLemmas.fresh [] (AccountRR.rvisit s) = length (AccountRR.r_blocks s).
+Proof. exact AccountRRProofs.arr_blocks_placed. Qed.
+
+Theorem C04_rr_refused_edit_changes_nothing : forall fx s o s', AccountRR.rr_step_gen fx s o = (s', false) -> s' = s.
+Proof. exact AccountRRProofs.arr_refused_unchanged. Qed.
+
+(* the code before fix 958cd03 (rr_step_gen false): rm_file of a symlink kept its continuation entry -- the witness that
+   was replayed on pycdlib *)
+Theorem C04_rr_declared_size_before_the_symlink_fix_refuted : exists v ops,
+  AccountRR.r_space (AccountRR.rr_run_gen false (AccountRR.rr_init v) ops) <>
+  AccountRR.rr_layout_end (AccountRR.rr_run_gen false (AccountRR.rr_init v) ops).
+Proof. exact AccountRRProofs.arr_space_exact_old_refuted. Qed.
+
+Example C04_rr_nonvacuous :
+  AccountRR.run_obs true (AccountRR.rr_init RREntries.V109) AccountRRProofs.leak_ops =
+    [(true, [26; 10; 2; 2048; 0], [[(0, 103)]], 26, [24]); (true, [25; 10; 2; 2048; 0], [], 25, [])]
+  /\ AccountRR.run_obs false (AccountRR.rr_init RREntries.V109) AccountRRProofs.leak_ops =
+    [(true, [26; 10; 2; 2048; 0], [[(0, 103)]], 26, [24]); (true, [26; 10; 2; 2048; 0], [[(0, 103)]], 25, [-1])].
+Proof. exact AccountRRProofs.arr_leak_ops_now. Qed.
